@@ -54,15 +54,15 @@ type isoScript struct {
 }
 
 type isoObs struct {
-	Arrived  []string // sorted point keys that reached the broker (deduplicated)
-	Lost     []string // accepted but never arrived
-	Writes   []string // per write: error class
-	Reads    []string // per successful read: upstream session + seq + first payload
-	Acked    []string // downstream results acknowledged
-	Closed   int
-	Resumed  int
-	Final    string // working / closed
-	Foreign  []string
+	Arrived []string // sorted point keys that reached the broker (deduplicated)
+	Lost    []string // accepted but never arrived
+	Writes  []string // per write: error class
+	Reads   []string // per successful read: upstream session + seq + first payload
+	Acked   []string // downstream results acknowledged
+	Closed  int
+	Resumed int
+	Final   string // working / closed
+	Foreign []string
 }
 
 type isoCarry struct {
